@@ -132,6 +132,10 @@ def clone(v):
     if isinstance(v, Agg):
         a = Agg(v.ctx, v.name, v.ty)
         a.disc = v.disc
+        if hasattr(v, "const_text"):
+            a.const_text = v.const_text
+        if hasattr(v, "veclen"):
+            a.veclen = v.veclen
         a.fields = {k: Cell(clone(c.val)) for k, c in v.fields.items()}
         a.variants = {k: Cell(clone(c.val)) for k, c in v.variants.items()}
         # lazily named children keep resolving to the same symbols as the original (same name) - that IS the copy
@@ -236,6 +240,8 @@ class MirFile:
         cands = []
         for h, s, e in self.funcs:
             if file_hint and file_hint not in h:
+                continue
+            if not file_hint and "<impl at " in h:
                 continue
             if not re.search(r"::" + re.escape(name) + r"\(", h) and not re.match(r"^fn " + re.escape(name) + r"\(", h):
                 continue
@@ -666,6 +672,9 @@ class Executor:
                     a.fields[str(i)] = Cell(val)
                     a.fields[fn.strip()] = a.fields[str(i)]
             return a
+        # repeat expression [x; N]: an abstract array (elements are materialised on read, not tied to x)
+        if t.startswith("[") and t.endswith("]") and "; " in t:
+            return Agg(self.ctx, self.ctx.fresh("array"), dest_ty or "array")
         # array aggregate  [a, b, c]
         if t.startswith("[") and t.endswith("]") and "; " not in t:
             a = Agg(self.ctx, None, dest_ty or "array")
